@@ -19,6 +19,13 @@
 (*   SignedDigestIsRequested   returned signature verifies for the digest  *)
 (*                             asked for and for no other message          *)
 (*   NoPanic                                                               *)
+(* Fault traces (property C11, adapter level; events of `drv adfault`):     *)
+(*   CallReturnsAfterCtxEnd    every KeyGen / Sign call returned, at most  *)
+(*                             `bound' ms after its context ended          *)
+(*   ErrorUnlessCompleted      a call that returned no error returned a    *)
+(*                             real result (key agreed / signature valid)  *)
+(*   NoPanic                   no panic, the process survived              *)
+(*   ProbeServedAfterwards     a fresh honest session completed afterwards *)
 (* Differences to the spec tables / digest model while the monitors hold   *)
 (* are drift.                                                              *)
 (***************************************************************************)
@@ -37,14 +44,17 @@ VARIABLES l, tid, hdr,
           rets,    \* {<<p, ok>>}
           pks,     \* {<<p, key>>}
           sigs,    \* parties whose signature was checked
-          pan, viol, drift
+          pan, viol, drift,
+          fs       \* fault trace (C11): [on, hdr, ce (party -> ms its context ended), rt (party -> [at, err, good]), nr, pans, crash,
+                   \*                     probe, sdp (SetShareData panicked), fail]
 
-tvars == <<vars, l, tid, hdr, emits, obs, ons, hs, pw, rets, pks, sigs, pan, viol, drift>>
+tvars == <<vars, l, tid, hdr, emits, obs, ons, hs, pw, rets, pks, sigs, pan, viol, drift, fs>>
 
 OB == 32
 Rng(s) == {s[i] : i \in DOMAIN s}
 Line == Trace[l]
 NoHdr == [ad |-> "", ph |-> "", ids |-> <<>>, thr |-> 0, dg |-> <<>>, pk |-> "", pp |-> 0, pa |-> 0, pb |-> 0, pf |-> FALSE, purl |-> "", pm |-> 0]
+NoFs == [on |-> FALSE]
 Ids == Rng(hdr.ids)
 Get(f, k, d) == IF k \in DOMAIN f THEN f[k] ELSE d
 Put(f, k, v) == [x \in DOMAIN f \cup {k} |-> IF x = k THEN v ELSE f[x]]
@@ -59,7 +69,7 @@ AccFroms(s) == IF s = <<>> THEN <<>> ELSE (IF s[1].acc THEN <<s[1].from>> ELSE <
 Mismatch(s) == Cardinality({i \in DOMAIN s : s[i].emb # 0 /\ s[i].emb # s[i].from})
 
 TInit == /\ Init /\ l = 1 /\ tid = -1 /\ hdr = NoHdr /\ emits = <<>> /\ obs = {} /\ ons = <<>> /\ hs = <<>> /\ pw = <<>>
-         /\ rets = {} /\ pks = {} /\ sigs = {} /\ pan = FALSE /\ viol = {} /\ drift = ""
+         /\ rets = {} /\ pks = {} /\ sigs = {} /\ pan = FALSE /\ viol = {} /\ drift = "" /\ fs = NoFs
 
 \* ---- reporting ----------------------------------------------------------------------------------------------------------
 \* ms: set of <<monitor name, class, holds>>
@@ -78,7 +88,8 @@ SamePhase(u1, u2) == hdr.ph # "table" \/
 
 \* ---- events -----------------------------------------------------------------------------------------------------------------
 Reset ==
-  /\ Line.e = "reset"
+  /\ Line.e = "reset" /\ "fk" \notin DOMAIN Line
+  /\ fs' = NoFs
   /\ tid' = Line.t
   /\ hdr' = [ad |-> Line.ad, ph |-> Line.ph, ids |-> Line.ids, thr |-> Line.thr, dg |-> Line.dg, pk |-> Line.pk, pp |-> Line.pp,
              pa |-> Line.pa, pb |-> Line.pb, pf |-> Line.pf, purl |-> Line.purl, pm |-> Line.pm]
@@ -92,7 +103,7 @@ EmitEv ==
          lib == IF c.known THEN (CHOOSE x \in Tbl : x.url = Line.url).lib ELSE FALSE IN
      SetDrift(IF ~c.known THEN "emitted type is not in the spec table of this phase: " \o Line.url
               ELSE IF lib # Line.rb THEN "library routes differently from the spec table: " \o Line.url ELSE "")
-  /\ UNCHANGED <<tid, hdr, obs, ons, hs, pw, rets, pks, sigs, pan, viol>>
+  /\ UNCHANGED <<tid, hdr, obs, ons, hs, pw, rets, pks, sigs, pan, viol, fs>>
 
 ClsEv ==
   /\ Line.e = "cls"
@@ -102,7 +113,7 @@ ClsEv ==
      /\ Report({<<"ClassifiedAsRouted", Line.url, ~Line.err /\ Line.bc = em.rb>>})
      /\ SetDrift(IF Line.m \notin DOMAIN emits THEN "classification of an unrecorded message"
                  ELSE IF c.known /\ (c.round # Line.r \/ c.bcast # Line.bc) THEN "classification differs from the spec table: " \o Line.url ELSE "")
-  /\ UNCHANGED <<tid, hdr, emits, ons, hs, pw, rets, pks, sigs, pan>>
+  /\ UNCHANGED <<tid, hdr, emits, ons, hs, pw, rets, pks, sigs, pan, fs>>
 
 \* ClassifyMsg on a hand-built envelope: the routing flag is the spec's transcription of the library's message definitions
 TclsEv ==
@@ -117,28 +128,28 @@ TclsEv ==
                  ELSE IF Line.k = "unknown" /\ (Line.err \/ Line.r # 0 \/ Line.bc) THEN "unknown type not classified as (0, point-to-point)"
                  ELSE IF Line.k = "garbage" /\ ~Line.err /\ (Line.r # 0 \/ Line.bc) THEN "garbage classified as a protocol message"
                  ELSE "")
-  /\ UNCHANGED <<tid, hdr, emits, ons, hs, pw, rets, pks, sigs, pan>>
+  /\ UNCHANGED <<tid, hdr, emits, ons, hs, pw, rets, pks, sigs, pan, fs>>
 
 OnEv ==
   /\ Line.e = "on"
   /\ ons' = Put(ons, Line.p, Append(Get(ons, Line.p, <<>>), [from |-> Line.from, acc |-> Line.acc, emb |-> Line.emb]))
-  /\ UNCHANGED <<tid, hdr, emits, obs, hs, pw, rets, pks, sigs, pan, viol, drift>>
+  /\ UNCHANGED <<tid, hdr, emits, obs, hs, pw, rets, pks, sigs, pan, viol, drift, fs>>
 
 HandedEv ==
   /\ Line.e = "handed"
   /\ hs' = Put(hs, Line.p, Append(Get(hs, Line.p, <<>>), Line.from))
   /\ pw' = Put(pw, Line.p, Append(Get(pw, Line.p, <<>>), Line.from))
-  /\ UNCHANGED <<tid, hdr, emits, obs, ons, rets, pks, sigs, pan, viol, drift>>
+  /\ UNCHANGED <<tid, hdr, emits, obs, ons, rets, pks, sigs, pan, viol, drift, fs>>
 
 RetEv ==
-  /\ Line.e = "ret"
+  /\ Line.e = "ret" /\ ~fs.on
   /\ rets' = rets \cup {<<Line.p, Line.ok>>}
-  /\ UNCHANGED <<tid, hdr, emits, obs, ons, hs, pw, pks, sigs, pan, viol, drift>>
+  /\ UNCHANGED <<tid, hdr, emits, obs, ons, hs, pw, pks, sigs, pan, viol, drift, fs>>
 
 PkEv ==
   /\ Line.e = "pk"
   /\ pks' = pks \cup {<<Line.p, Line.pkh>>}
-  /\ UNCHANGED <<tid, hdr, emits, obs, ons, hs, pw, rets, sigs, pan, viol, drift>>
+  /\ UNCHANGED <<tid, hdr, emits, obs, ons, hs, pw, rets, sigs, pan, viol, drift, fs>>
 
 \* a signature was RETURNED by Sign: it must verify (standard verifier) for the requested digest and for no other message
 SigEv ==
@@ -152,26 +163,26 @@ SigEv ==
                       /\ \A o \in others : o.v = StdAccepts(hdr.ad, o.d, sg, OB) IN
      /\ Report({<<"SignedDigestIsRequested", DigestClass(hdr.ad, d), Line.err = "" /\ Line.vr /\ okOthers>>})
      /\ SetDrift(IF ~predicted THEN "signature verdicts differ from the digest model" ELSE "")
-  /\ UNCHANGED <<tid, hdr, emits, obs, ons, hs, pw, rets, pks, pan>>
+  /\ UNCHANGED <<tid, hdr, emits, obs, ons, hs, pw, rets, pks, pan, fs>>
 
 PanicEv ==
-  /\ Line.e = "panic"
+  /\ Line.e = "panic" /\ ~fs.on
   /\ pan' = TRUE
   /\ Report({<<"NoPanic", Line.where, FALSE>>})
-  /\ UNCHANGED <<tid, hdr, emits, obs, ons, hs, pw, rets, pks, sigs, drift>>
+  /\ UNCHANGED <<tid, hdr, emits, obs, ons, hs, pw, rets, pks, sigs, drift, fs>>
 
 WarnEv ==
   /\ Line.e = "warn"
   /\ pw' = IF Line.path = "proto" THEN Put(pw, Line.p, Append(Get(pw, Line.p, <<>>), -1)) ELSE pw
-  /\ UNCHANGED <<tid, hdr, emits, obs, ons, hs, rets, pks, sigs, pan, viol, drift>>
+  /\ UNCHANGED <<tid, hdr, emits, obs, ons, hs, rets, pks, sigs, pan, viol, drift, fs>>
 
 OtherEv ==
   /\ Line.e = "setup"
   /\ SetDrift("stored share data could not be loaded")
-  /\ UNCHANGED <<tid, hdr, emits, obs, ons, hs, pw, rets, pks, sigs, pan, viol>>
+  /\ UNCHANGED <<tid, hdr, emits, obs, ons, hs, pw, rets, pks, sigs, pan, viol, fs>>
 
 EndEv ==
-  /\ Line.e = "end"
+  /\ Line.e = "end" /\ ~fs.on
   /\ LET proto == hdr.ph \in {"keygen", "sign"}
          refuses == hdr.ph = "sign" /\ Refuses(hdr.ad, hdr.dg, OB, P256N)
          completed == /\ ~Line.hung /\ \A id \in Ids : <<id, TRUE>> \in rets
@@ -201,10 +212,69 @@ EndEv ==
      /\ PrintT(<<"END", ToJson([t |-> tid, drift |-> drift', completed |-> completed, aligned |-> aligned, refuses |-> refuses,
                                 obs |-> obs, nh |-> Cardinality(DOMAIN hs),
                                 cal |-> \E p \in DOMAIN pw : \E i \in nonMember(p) : rejected(p, i)])>>)
-  /\ UNCHANGED <<tid, hdr, emits, obs, ons, hs, pw, rets, pks, sigs, pan>>
+  /\ UNCHANGED <<tid, hdr, emits, obs, ons, hs, pw, rets, pks, sigs, pan, fs>>
+
+\* ---- fault traces (C11) -----------------------------------------------------------------------------------------------------
+FKeep == UNCHANGED <<hdr, emits, obs, ons, hs, pw, rets, pks, sigs, pan>>
+FOpt(f, d) == IF f \in DOMAIN Line THEN Line[f] ELSE d
+
+FResetEv ==
+  /\ Line.e = "reset" /\ "fk" \in DOMAIN Line
+  /\ tid' = Line.t
+  /\ fs' = [on |-> TRUE, hdr |-> Line, ce |-> <<>>, rt |-> <<>>, nr |-> {}, pans |-> {}, crash |-> FALSE, probe |-> "none",
+             sdp |-> FALSE, fail |-> FALSE]
+  /\ viol' = {} /\ drift' = ""
+  /\ FKeep
+
+FCtxEv ==
+  /\ fs.on /\ Line.e = "ctxend"
+  /\ fs' = [fs EXCEPT !.ce = Put(@, Line.p, Line.at)]
+  /\ FKeep /\ UNCHANGED <<tid, viol, drift>>
+
+FRetEv ==
+  /\ fs.on /\ Line.e = "ret"
+  /\ fs' = [fs EXCEPT !.rt = Put(@, Line.p, [at |-> Line.at, err |-> Line.err, good |-> Line.good])]
+  /\ FKeep /\ UNCHANGED <<tid, viol, drift>>
+
+FMiscEv ==
+  /\ fs.on /\ Line.e \in {"noret", "panic", "crash", "probe", "setdata", "setupfail"}
+  /\ fs' = CASE Line.e = "noret" -> [fs EXCEPT !.nr = @ \cup {Line.p}]
+              [] Line.e = "panic" -> [fs EXCEPT !.pans = @ \cup {Line.p}]
+              [] Line.e = "crash" -> [fs EXCEPT !.crash = TRUE]
+              [] Line.e = "probe" -> [fs EXCEPT !.probe = IF Line.ok THEN "ok" ELSE "fail"]
+              [] Line.e = "setdata" -> [fs EXCEPT !.sdp = @ \/ Line.panic # ""]
+              [] OTHER -> [fs EXCEPT !.fail = TRUE]
+  /\ FKeep /\ UNCHANGED <<tid, viol, drift>>
+
+FEndEv ==
+  /\ fs.on /\ Line.e = "end"
+  /\ LET h == fs.hdr
+         called == Rng(h.ids)
+         FReport(ms) == LET bad == {m[1] : m \in {mm \in ms : ~mm[2]}} IN
+                        /\ viol' = bad
+                        /\ \A b \in bad : PrintT(<<"VIOL", ToJson([t |-> tid, l |-> l, mon |-> b, cls |-> h.fk, ad |-> h.ad, ph |-> h.ph, pk |-> "fault"])>>)
+         returned(p) == p \in DOMAIN fs.rt
+         intime(p) == returned(p) /\ (p \in DOMAIN fs.ce => fs.rt[p].at <= fs.ce[p] + h.bound)
+         allok == \A p \in called : returned(p) /\ ~fs.rt[p].err
+         left == FOpt("g1", 0) - FOpt("g0", 0) IN
+     /\ FReport({
+          <<"CallReturnsAfterCtxEnd", (~fs.crash /\ ~fs.fail) => \A p \in called \ fs.pans : intime(p)>>,
+          <<"ErrorUnlessCompleted", \A p \in DOMAIN fs.rt : ~fs.rt[p].err => fs.rt[p].good>>,
+          <<"NoPanic", ~fs.crash /\ fs.pans = {} /\ ~fs.sdp>>,
+          <<"ProbeServedAfterwards", (h.probe /\ ~fs.crash /\ ~fs.fail) => fs.probe = "ok">>})
+     /\ drift' = IF fs.fail THEN "the set-up of the case failed"
+                 ELSE IF h.fk = "none" /\ ~fs.crash /\ ~allok THEN "the fault-free control did not complete before its deadline"
+                 ELSE IF left > 0 /\ ~fs.crash THEN "goroutines of the finished session were still there after the grace period"
+                 ELSE ""
+     /\ PrintT(<<"END", ToJson([t |-> tid, drift |-> drift', fault |-> TRUE, allok |-> allok,
+                                nret |-> Cardinality(DOMAIN fs.rt), nok |-> Cardinality({p \in DOMAIN fs.rt : ~fs.rt[p].err}),
+                                crash |-> fs.crash, left |-> left])>>)
+  /\ fs' = NoFs
+  /\ FKeep /\ UNCHANGED tid
 
 TNext == /\ l <= Len(Trace)
          /\ l' = l + 1
          /\ UNCHANGED vars
          /\ \/ Reset \/ EmitEv \/ ClsEv \/ TclsEv \/ OnEv \/ HandedEv \/ RetEv \/ PkEv \/ SigEv \/ PanicEv \/ WarnEv \/ OtherEv \/ EndEv
+            \/ FResetEv \/ FCtxEv \/ FRetEv \/ FMiscEv \/ FEndEv
 =============================================================================
